@@ -34,7 +34,7 @@ def macro(x, e, env):
     if n in ('bail', 'anyhow::bail'):
         raise Return(Err(PStr('bail')))
     if n in ('anyhow', 'anyhow::anyhow'):
-        return PStr('anyhow')
+        return fmt(x, e, env)
     raise Unsupported('macro %s line %s' % (n, e.get('line')))
 
 
